@@ -86,6 +86,20 @@ func c07LibScript(k int) *hx.Script {
 	return s
 }
 
+// C07FieldLines lists the field map of a file (debugging aid).
+func C07FieldLines(path string) []string {
+	b, err := os.ReadFile(path)
+	if err != nil {
+		return []string{err.Error()}
+	}
+	fs, _ := c07Fields(b)
+	var out []string
+	for _, f := range fs {
+		out = append(out, fmt.Sprintf("%6d w%d %-24s %-12s own=%d ctx=%s", f.Off, f.Width, f.Struct, f.Kind, f.own, f.ctx))
+	}
+	return out
+}
+
 // C07LibSeedWrite writes library seed k to path (debugging aid).
 func C07LibSeedWrite(k int, path string) string {
 	e := hx.Run(path, c07LibScript(k))
@@ -123,7 +137,78 @@ func c07PlanFor(tier string) c07Plan {
 
 func c07Cases(tier string) int {
 	p := c07PlanFor(tier)
-	return len(p.seeds)*p.perSeed + p.randCases + c07SynthFamilies
+	return len(p.seeds)*p.perSeed + p.randCases + c07SynthFamilies + c07PairCases
+}
+
+// ---- pairs of fields -----------------------------------------------------------------------
+
+const c07PairCases = 32
+
+type c07PairInst struct {
+	seed   int
+	kind   string
+	fields []c07Field
+}
+
+var (
+	c07PairMu    sync.Mutex
+	c07PairCache = map[int][]c07PairInst{}
+)
+
+// c07PairInstances chooses message instances for the pairwise enumeration: walking the seeds
+// in order, the first instance of every message kind (with its object context) in a file is
+// taken while fewer than n instances of that kind have been taken. An instance is the run of
+// consecutive fields of one header message.
+func c07PairInstances(n int) []c07PairInst {
+	c07PairMu.Lock()
+	defer c07PairMu.Unlock()
+	if l, ok := c07PairCache[n]; ok {
+		return l
+	}
+	c07Init()
+	var out []c07PairInst
+	count := map[string]int{}
+	dir, _ := os.MkdirTemp("", "verif-c07-pairs-")
+	defer os.RemoveAll(dir)
+	for k := 0; k < c07LibSeeds+len(c07Seeds); k++ {
+		var b []byte
+		if k < c07LibSeeds {
+			p := filepath.Join(dir, "seed.h5")
+			hx.Run(p, c07LibScript(k))
+			b, _ = os.ReadFile(p)
+		} else {
+			b, _ = os.ReadFile(c07Seeds[k-c07LibSeeds])
+		}
+		if len(b) == 0 {
+			continue
+		}
+		fields, _ := c07Fields(b)
+		inFile := map[string]bool{}
+		for i := 0; i < len(fields); {
+			j := i
+			for j < len(fields) && fields[j].Struct == fields[i].Struct && fields[j].own == fields[i].own {
+				j++
+			}
+			if st := fields[i].Struct; strings.HasPrefix(st, "msg:") && j-i >= 2 {
+				kind := st + ":" + fields[i].ctx
+				if j-i >= 12 {
+					kind += ":large"
+				}
+				if !inFile[kind] && count[kind] < n {
+					inFile[kind] = true
+					count[kind]++
+					fs := fields[i:j]
+					if len(fs) > 48 {
+						fs = fs[:48]
+					}
+					out = append(out, c07PairInst{k, kind, append([]c07Field(nil), fs...)})
+				}
+			}
+			i = j
+		}
+	}
+	c07PairCache[n] = out
+	return out
 }
 
 var (
@@ -263,17 +348,17 @@ func (b bytesReaderAt) ReadAt(p []byte, off int64) (int, error) {
 }
 
 // c07Values lists the boundary values tried for one field.
-func c07Values(f c07Field, size uint64, root uint64, ext []specdec.Extent) []uint64 {
+func c07Values(f c07Field, cur uint64, size uint64, root uint64, ext []specdec.Extent) []uint64 {
 	max := ^uint64(0)
 	if f.Width < 8 {
 		max = 1<<(8*uint(f.Width)) - 1
 	}
-	vals := []uint64{0, 1, 2, max / 2, max/2 + 1, max - 1, max}
+	vals := []uint64{0, 1, 2, max / 2, max/2 + 1, max - 1, max, cur + 1, cur - 1, cur * 2}
 	switch f.Kind {
 	case "signature", "reserved", "checksum", "hash":
 		vals = []uint64{0, max}
 	case "version", "type", "flags", "id":
-		vals = []uint64{0, 1, 2, 3, 4, 5, 0x7f, 0x80, max}
+		vals = []uint64{0, 1, 2, 3, 4, 5, 0x7f, 0x80, max, cur + 1, cur - 1, cur ^ 2, cur ^ 0x10}
 	default:
 		vals = append(vals, size, size-1, size+1, f.own, f.Off, root, 3, 7, 8, 0xff, 0x100, 0xffff, 0x10000, 0xffffffff, 1<<32, 1<<31,
 			1<<62, 1<<61, 1<<60, 1<<50, 1<<40) // products with small element sizes wrap around 2^64
@@ -488,7 +573,7 @@ func c07Run(c *ev.Ctx) {
 			var tmp [8]byte
 			copy(tmp[:], b[f.Off:f.Off+uint64(f.Width)])
 			cur := binary.LittleEndian.Uint64(tmp[:])
-			for _, v := range c07Values(f, uint64(len(b)), root, ext) {
+			for _, v := range c07Values(f, cur, uint64(len(b)), root, ext) {
 				if v == cur {
 					continue
 				}
@@ -540,6 +625,71 @@ func c07Run(c *ev.Ctx) {
 		}
 		c.Case(fmt.Sprintf("field|%s|block%d|fields%d", name, block, len(fields)), ran > 0)
 		checkCanary(name)
+		return
+	}
+	if c.Index >= nField+plan.randCases+c07SynthFamilies {
+		// two fields of one header message changed together, each by a small step (+1, -1, one
+		// bit): a count that announces one more element next to a type code that changes what
+		// the elements are, a size next to a rank, ... Single-field corruption cannot reach
+		// states that need two fields to agree on something wrong.
+		insts := c07PairInstances(c.Pick(2, 10))
+		slot := c.Index - nField - plan.randCases - c07SynthFamilies
+		sub, ran := 0, 0
+		curSeed := -1
+		var b []byte
+		var name string
+		var base c07Base
+		for ii, in := range insts {
+			if ii%c07PairCases != slot {
+				continue
+			}
+			if in.seed != curSeed {
+				var err error
+				b, name, err = c07Seed(c, in.seed)
+				if err != nil {
+					continue
+				}
+				curSeed = in.seed
+				base = c07Baseline(c, input, b)
+			}
+			get := func(f c07Field) uint64 {
+				var tmp [8]byte
+				copy(tmp[:], b[f.Off:f.Off+uint64(f.Width)])
+				return binary.LittleEndian.Uint64(tmp[:])
+			}
+			mut := make([]byte, len(b))
+			for i := 0; i < len(in.fields); i++ {
+				for j := i + 1; j < len(in.fields); j++ {
+					fi, fj := in.fields[i], in.fields[j]
+					if fi.Kind == "signature" || fj.Kind == "signature" || fi.Kind == "checksum" || fj.Kind == "checksum" {
+						continue
+					}
+					ci, cj := get(fi), get(fj)
+					for _, vi := range []uint64{ci + 1, ci - 1} {
+						for _, vj := range []uint64{cj + 1, cj - 1, cj ^ 2} {
+							sub++
+							if c.SkipSub(sub) {
+								continue
+							}
+							copy(mut, b)
+							putLE(mut, fi.Off, fi.Width, vi)
+							putLE(mut, fj.Off, fj.Width, vj)
+							if err := os.WriteFile(input, mut, 0o644); err != nil {
+								c.Inconclusive("write input: " + err.Error())
+								return
+							}
+							c.Mark(sub, fmt.Sprintf("seed=%s pair %s@%d %d->%d and %s@%d %d->%d", name, fi.Kind, fi.Off, ci, vi, fj.Kind, fj.Off, cj, vj))
+							c07Probe(c, input, len(b), base, "pair:"+in.kind, map[string]any{"seed": name, "message": in.kind, "field_a": fmt.Sprintf("%s@%d w%d %d->%d", fi.Kind, fi.Off, fi.Width, ci, vi), "field_b": fmt.Sprintf("%s@%d w%d %d->%d", fj.Kind, fj.Off, fj.Width, cj, vj)})
+							ran++
+						}
+					}
+				}
+			}
+		}
+		c.Count("field-pair-corruptions", int64(ran))
+		c.Count("message_instances_in_pair_enumeration", int64(len(insts)))
+		c.Case(fmt.Sprintf("pairs|slot%d", slot), ran > 0)
+		checkCanary("pairs")
 		return
 	}
 	if c.Index >= nField+plan.randCases {
